@@ -14,7 +14,7 @@ type Query {
   d: Date
   stamp: Stamp
   u: User
-  users(first: Int = 10, filter: Filter, kinds: [Kind!], ids: [ID!]!, f: Float, limit: Int! = 5, opt: [String], mat: [[Int]], at: Stamp): [User!]!
+  users(first: Int = 10, filter: Filter, kinds: [Kind!], ids: [ID!]!, f: Float, limit: Int! = 5, opt: [String], mat: [[Int]], at: Stamp, tags: [String!]! = [], picks: [ID!] = ["a"]): [User!]!
   maybe: [User]
   node(id: ID!): Node
   named: [Named!]
@@ -40,9 +40,12 @@ interface Owned { owner: Named tags: [String] }
 type Issue implements Owned { owner: Named tags: [String] n: Int }
 type Repo implements Owned { owner: User! tags: [String!]! stars: Int }
 enum Kind { A B }
-input Filter { kind: Kind name: String = "x" ids: [ID!] nested: Filter min: Int! = 0 req: Boolean! }
+input Filter { kind: Kind name: String = "x" ids: [ID!] nested: Filter min: Int! = 0 req: Boolean! labels: [String!] = ["l"] }
 scalar Date
 scalar Stamp @nitrogql_ts_type(resolverInput: "RI", resolverOutput: "RO", operationInput: "OI", operationOutput: "OO")
+"schema types named like the TypeScript identifiers a scalar mapping mentions (nothing refers to them)"
+type OO { x: Int }
+input OI { y: Int }
 directive @tag(name: String!) repeatable on QUERY | MUTATION | SUBSCRIPTION | FIELD | FRAGMENT_DEFINITION | FRAGMENT_SPREAD | INLINE_FRAGMENT | VARIABLE_DEFINITION
 directive @once(n: Int! = 1) on QUERY | MUTATION | SUBSCRIPTION | FIELD | FRAGMENT_DEFINITION | FRAGMENT_SPREAD | INLINE_FRAGMENT | VARIABLE_DEFINITION
 directive @onlyq on QUERY
@@ -403,6 +406,14 @@ pub fn gen_doc(c: &mut Chooser, sch: &Sch, depth: usize, custom_dirs: bool) -> E
         sel,
     }];
     defs.append(&mut g.frags);
+    // definition order: the operation first (as most people write it), last, or between its fragments
+    if defs.len() > 1 {
+        match g.c.choose("defs.order", 3) {
+            0 => {}
+            1 => defs.rotate_left(1),
+            _ => defs.swap(0, 1),
+        }
+    }
     ExecDoc { defs }
 }
 
